@@ -1930,18 +1930,25 @@ def c09_window(kind, times=None, begin=None, end=None, groups=None, pass_num_gro
     return {"violates": bool(probs), "why": probs[:3]}
 
 
-def c17_accessor(which, xx, nodata, window, dtype, nodata_from, groups=None):
+def c17_accessor(which, xx, nodata, window, dtype, nodata_from, groups=None, attr_nodata=None):
     import xarray as xr
     import hdc.algo  # noqa
     n = len(xx)
     lo, hi = np.iinfo(dtype).min, np.iinfo(dtype).max
     trials = [(list(xx), int(nodata))]
+    if nodata_from == "both":
+        # the explicit argument must win over the attribute: cells equal to the argument are missing, cells equal to the attribute are data
+        an = int(attr_nodata) if attr_nodata is not None else -9999
+        if an == int(nodata):
+            an = int(nodata) - 1 if int(nodata) > lo else int(nodata) + 1
+        base = [int(nodata) if i % 3 == 1 else (an if i % 3 == 2 else 5 + i) for i in range(max(n, 6))][:n]
+        trials = [(list(xx), int(nodata)), (base, int(nodata))]
     for sent in (hi, lo, -99999999 if lo < -99999999 else lo, 16777217 if hi > 16777217 else hi):
         trials.append(([sent if i % 2 == 0 else (i + 1) for i in range(n)], sent))
         trials.append(([sent] * n, sent))
     for vals, nd in trials:
         data = np.array(vals, dtype=dtype).reshape(n, 1, 1)
-        attrs = {"nodata": nd} if nodata_from == "attrs" else {}
+        attrs = {"nodata": nd} if nodata_from == "attrs" else ({"nodata": an} if nodata_from == "both" else {})
         da = xr.DataArray(data, dims=("time", "y", "x"), attrs=attrs)
         kw = {} if nodata_from == "attrs" else {"nodata": nd}
         if which == "rolling":
